@@ -280,6 +280,14 @@ void Interpreter::sync_impl_definitions_from_parser(RecursiveParser *parser) {
             impl_def.destructor = nullptr;
             for (const auto &arg : impl_def.impl_node->arguments) {
                 if (arg->node_type == ASTNodeType::AST_FUNC_DECL) {
+                    // as handle_impl_declaration does for a local block: the
+                    // impl context of a call is taken from the qualified name
+                    if (arg->type_name.empty()) {
+                        arg->type_name = impl_def.struct_name;
+                    }
+                    arg->qualified_name = impl_def.interface_name +
+                                          "::" + impl_def.struct_name +
+                                          "::" + arg->name;
                     impl_def.methods.push_back(arg.get());
                 } else if (arg->node_type ==
                            ASTNodeType::AST_CONSTRUCTOR_DECL) {
